@@ -133,6 +133,12 @@ func (w *Watcher) getGovernanceEventsByTxId(
 		if event.ContractAddress != address {
 			continue
 		}
+		// The events of a transaction are indexed per block: after a reorg the index also
+		// holds the copies from orphaned blocks. Only the confirmed block is checked for
+		// canonicity by the caller, so only its events may be returned.
+		if event.BlockHash != blockHash {
+			continue
+		}
 
 		header, err := client.GetBlockHeader(ctx, event.BlockHash)
 		if err != nil {
